@@ -27,6 +27,7 @@ class G:
         self.live_imm, self.live_tm = [], []
         self.live_net = {}          # (fd, dir) -> id
         self.scripted = set()
+        self.imm_ids, self.tm_ids = [], []      # every id ever registered as immediate / timer (also from scripts)
 
     # ---- ids and scripts
     def fresh(self):
@@ -48,9 +49,10 @@ class G:
             if k == "ri" and depth < 3:
                 j = self.fresh()
                 self.make_script(j, depth + 1)
+                self.imm_ids.append(j)
                 ops.append("ri:%d:%d" % (j, self.prio()))
             elif k == "ci":
-                ops.append("ci:%d" % self.pick_id())
+                ops.append("ci:%d" % (r.choice(self.imm_ids) if self.imm_ids and r.chance(2, 3) else self.pick_id()))
             elif k == "rn" and depth < 3:
                 j = self.fresh()
                 self.make_script(j, depth + 1)
@@ -66,11 +68,12 @@ class G:
             elif k == "rt" and depth < 3:
                 j = self.fresh()
                 self.make_script(j, depth + 1)
+                self.tm_ids.append(j)
                 ops.append("rt:%d:%d" % (j, self.usec()))
             elif k == "ct":
-                ops.append("ct:%d" % self.pick_id())
+                ops.append("ct:%d" % (r.choice(self.tm_ids) if self.tm_ids and r.chance(2, 3) else self.pick_id()))
             elif k == "xt":
-                ops.append("xt:%d" % self.pick_id())
+                ops.append("xt:%d" % (r.choice(self.tm_ids) if self.tm_ids and r.chance(2, 3) else self.pick_id()))
             elif k == "int":
                 ops.append("int")
             elif k == "clk":
@@ -131,6 +134,7 @@ class G:
         if k == "imm":
             self.ops.append("reg_imm %d %d" % (i, self.prio()))
             self.live_imm.append(i)
+            self.imm_ids.append(i)
         elif k == "net":
             fd, d = self.some_fd(), r.choice("rw")
             if r.chance(1, 3) and self.live_net:
@@ -142,6 +146,7 @@ class G:
         else:
             self.ops.append("reg_tm %d %d" % (i, self.usec()))
             self.live_tm.append(i)
+            self.tm_ids.append(i)
 
     def top_misc(self):
         r = self.r
